@@ -158,3 +158,21 @@ Definition judge_levels (c : bool * string * @lparams NumF * @state NumF * optio
     match obs with Some l => b2n (C14_ok d fn lp st l) | None => 0 end ].
 Definition mkLC (inc : bool) (fn : string) (lp : @lparams NumF) (st : @state NumF)
            (obs : option (list (list (string * float)))) := (inc, fn, lp, st, obs).
+
+(** ** ELECTRE distillations on raw credibility matrices (component level) *)
+From RDM Require Import Model.Electre.
+Definition mkRC (m : list (list float)) (a b : float) (obs : option (list Z * list Z)) := (m, a, b, obs).
+Definition judge_rank (c : list (list float) * float * float * option (list Z * list Z)) : list nat :=
+  let '(m, a, b, obs) := c in
+  let f := mkLF a b in
+  (* the diagonal is removed by the code before distilling *)
+  let m0 := map (fun ir => map (fun jx => if Nat.eqb (fst ir) (fst jx) then 0%float else snd jx)
+                               (zip (seq 0 (List.length (snd ir))) (snd ir)))
+                (zip (seq 0 (List.length m)) m) in
+  match @rank_ascending NumF m0 f, @rank_descending NumF m0 f, obs with
+  | Ok ma, Ok md, Some (oa, od) => [ if list_eqb Z.eqb ma oa && list_eqb Z.eqb md od then 0 else 3;
+                                     b2n (consecutive oa && consecutive od) ]
+  | Err _, _, None | _, Err _, None => [0; 0]
+  | _, _, None => [2; 0]
+  | _, _, Some _ => [1; 0]
+  end.
